@@ -58,7 +58,7 @@ func runC01(a *A) {
 		c01Rows(a, r, ar)
 		c01Query(a, r, ar)
 	}
-	if rc := resolveRolesG(a, "C01-R4", "c"); rc != nil {
+	if rc := resolveRolesG(a, "C01-R4", "r"); rc != nil {
 		c01Framing(a, rc)
 	}
 }
